@@ -156,7 +156,7 @@ func hashCases(r *Rng, n int, cf *CoqFile, st *Stats) {
 			} else {
 				ch.JoinerBytes = randBytes(r, 20)
 			}
-			if r.Chance(40) {
+			if r.Chance(70) {
 				ch.SMPrefix, ch.SMMappings, ch.SMSuffix = randBytes(r, 10), randBytes(r, 16), randBytes(r, 6)
 			}
 			// import graph: arbitrary, cycles and self-loops and duplicates included
@@ -164,15 +164,20 @@ func hashCases(r *Rng, n int, cf *CoqFile, st *Stats) {
 				ch.Imports = append(ch.Imports, uint32(r.Intn(nc)))
 			}
 		}
+		// the isolated hash must not depend on the source-map mode: every mode is drawn
+		smMode := []config.SourceMap{config.SourceMapNone, config.SourceMapInline, config.SourceMapLinkedWithComment,
+			config.SourceMapExternalWithoutComment, config.SourceMapInlineAndExternal}[i%5]
 		v := linker.VerifNewLinker(mockFS, "/out", public, prefix, files, chunks)
+		v.SetSourceMapMode(smMode)
 		for k := range chunks {
 			iso := v.GenerateIsolatedHash(uint32(k))
 			chunks[k].IsoHash = iso
 			isoItems = append(isoItems, fmt.Sprintf("(%s,%s,%s)", CBytes([]byte(public)), chunkCoq(&chunks[k], files), CBytes(iso)))
-			st.Note("isolated-hash", fmt.Sprint(chunks[k]), true)
+			st.Note(fmt.Sprintf("isolated-hash/sourcemap-mode-%d", smMode), fmt.Sprint(chunks[k]), true)
 		}
 		// the loop of generateChunksInParallel: one visited array, stamp ^chunkIndex
 		v = linker.VerifNewLinker(mockFS, "/out", public, prefix, files, chunks)
+		v.SetSourceMapMode(smMode)
 		visited := make([]uint32, nc)
 		var streams []string
 		var ccoq []string
